@@ -36,11 +36,11 @@ CHECKS['C05'] = dict(
 CHECKS['C06'] = dict(
     text=('Lean 4 theorems over unbounded coordinates and arbitrary area lists for the model of _intersect, _split, '
           'Ranges & : | - simplify/_merge (XL.Props.C06: inter_cells, inter_null, interAreas_cells, range_bounding, '
-          'range_error, union_multiplicity, split_cells, split_nodup, sub_cells, sub_nodup, simplify_cells, '
+          'range_error, union_multiplicity, split_inside, split_cells, split_nodup, split_no_phantom, sub_cells, sub_inside, sub_nodup, simplify_cells, '
           'simplify_adds_nothing, simplify_nodup). The model is tied to formulas/ranges.py by running both on all '
           'ordered rectangle pairs of a 4x4 (thorough 5x5) grid plus random multi-area/whole-row/column/multi-sheet '
-          'operands; cell sets and the values seen through combined references are also checked on the '
-          'implementation by brute-force coordinate enumeration.'),
+          'operands; cell sets and the values seen through combined references (also those supplied by whole rows and columns) are checked on the '
+          'implementation by brute-force coordinate enumeration. Cells are the positions with row, column >= 1: index 0 is the first index of a whole row / column in the code\'s encoding and the code compares sides after `or 1` (split_cells / sub_cells are stated for those cells, split_inside / sub_inside for all positions).'),
     design='DESIGN.md §3 C06',
     note=COMMON_NOTE + 'Modelled, not proved: value assembly of Ranges.value (checked on the implementation only); '
          'the regular expressions that turn reference text into rectangles (C04).',
@@ -87,10 +87,10 @@ CHECKS['C20'] = dict(
           'numbers by omega, the Excel layer with the fictitious 1900-02-29 and day 0 unfolded on top); '
           'date_special, date_out_of_range; weekday_succ / weekday_succ_mode3 / weekday_bad_mode for all serials and '
           'all 10 modes; x2dec_dec2x for every integer of the two\'s-complement range of each base, with the masks '
-          'generated from the source (masks); dec2x_out_of_range; roman_arabic for all 4000 x 5 arguments by kernel '
+          'generated from the source (masks); x2dec_dec2xP / dec2xP_negative — whatever places adds is read back as the same number, a negative number keeps its ten digits; dec2x_out_of_range; roman_arabic for all 4000 x 5 arguments by kernel '
           'evaluation (decide +kernel) over the numeral tables generated from the source. The model is compared with '
           'the implementation on boundary and random serials (thorough: every serial on 16 workers), overflowing DATE '
-          'arguments, all binary values, sampled octal/hex values, malformed digit strings and all ROMAN arguments; '
+          'arguments, all binary values, sampled octal/hex values (with places -1..11, as numbers and as the 1x1 arrays a cell reference delivers), malformed digit strings and all ROMAN arguments; '
           'dates are additionally compared with CPython datetime. TIME/HOUR/MINUTE/SECOND are floating point: they '
           'are enumerated on the implementation (every 7th second quick, all 86400 thorough), which is a test, not a proof.'),
     design='DESIGN.md §3 C20',
@@ -196,7 +196,7 @@ CHECKS['C07'] = dict(
           'to the Lean model, and compares every cell; restricted output lists must return the same values.'),
     design='DESIGN.md §3 C07',
     note=COMMON_NOTE + 'The history-independence half of the property is about mutable state of the Python objects: it is '
-         'observed (live vs fresh model), not proved. Known finding range-override-unlisted-blank (from_dict models only).',
+         'observed (live vs fresh model), not proved; so is the last solution of the model after compile / to_dict / deepcopy. Known findings range-override-all-blank-range and outputs-restricted-unlisted-blanks (from_dict models whose ranges consist of unlisted blank cells).',
     technique='Lean 4 proof on the workbook model + differential correspondence (live model after history vs fresh model vs Lean model)')
 
 CHECKS['C08'] = dict(
@@ -212,7 +212,7 @@ CHECKS['C08'] = dict(
     note=COMMON_NOTE + 'schedula shrink_dsp / get_sub_dsp_from_workflow / DispatchPipe are external: the model states what '
          'freezing must satisfy (entries independent of the inputs) and the correspondence checks the implementation '
          'against calculate() and the model. Volatile cells are the subject of C13; C08 only checks relations between the '
-         'outputs of one call when a volatile cell is among the precedents. Known finding: compile-unlisted-blank-input.',
+         'outputs of one call when a volatile cell is among the precedents. Known findings: compile-unlisted-blank-input, compile-range-over-unlisted-blanks.',
     technique='Lean 4 proof (freezing lemma, substitution lemma) + differential correspondence')
 
 CHECKS['C09'] = dict(
